@@ -756,6 +756,10 @@ var upSelShapes = []upSelShape{
 	{exprs: []upExpr{{"a", "E", nil}, {"t", "I", []string{"p", "q"}}}},
 	{exprs: []upExpr{{"c", "O", []string{"z"}}}},
 	{exprs: []upExpr{{"c", "D", nil}}},
+	// flag labels: the value is the empty string (legal, e.g. pingcap.com/tikv: "")
+	{ml: [][2]string{{"flag", ""}}},
+	{ml: [][2]string{{"a", "x"}, {"flag", ""}}},
+	{ml: [][2]string{{"flag", ""}}, exprs: []upExpr{{"t", "I", []string{"p", ""}}}},
 }
 
 // malformed / outside apps/v1 validation
@@ -768,12 +772,13 @@ var upBadShapes = []upSelShape{
 }
 
 func genRevLabels(rng *rand.Rand, c *upCase, class int) (bool, [][2]string) {
-	tpl := [][2]string{{"a", "x"}, {"b", "y"}, {"t", "p"}}
+	// the template labels; "flag" is a flag label (empty value)
+	tpl := [][2]string{{"a", "x"}, {"b", "y"}, {"flag", ""}, {"t", "p"}}
 	switch class {
 	case 0: // revision of this set: the template labels
 		return false, tpl
 	case 1: // same, plus a label of its own
-		return false, [][2]string{{"a", "x"}, {"b", "y"}, {"h", "1"}, {"t", "q"}}
+		return false, [][2]string{{"a", "x"}, {"b", "y"}, {"flag", ""}, {"h", "1"}, {"t", "q"}}
 	case 2: // a foreign revision
 		return false, [][2]string{{"a", "q"}, {"b", "y"}}
 	case 3: // relabelled by an earlier (partial) run
@@ -792,7 +797,11 @@ func genRevLabels(rng *rand.Rand, c *upCase, class int) (bool, [][2]string) {
 }
 
 func genUpCase(rng *rand.Rand) *upCase {
-	c := &upCase{name: pick(rng, "web", "web", "web", "db"), st: rng.Intn(10) != 0, s: 1 + rng.Intn(3), t: rng.Intn(4)}
+	name := pick(rng, "web", "web", "web", "db")
+	if rng.Intn(25) == 0 { // around and beyond the 63 bytes a label VALUE may have (the marker carries the set's name): 62 .. 65, 100, 253
+		name = strings.Repeat("n", pick(rng, 62, 63, 64, 65, 100, 253))
+	}
+	c := &upCase{name: name, st: rng.Intn(10) != 0, s: 1 + rng.Intn(3), t: rng.Intn(4)}
 	bad := rng.Intn(12) == 0
 	switch {
 	case bad && rng.Intn(5) == 0:
